@@ -1,15 +1,65 @@
-(* C01 - honest signatures always verify
-   FULL STATEMENT: see DESIGN.md section 7 (S.sign_verify + transfer to Impl).  Not yet proved as a theorem about the composed
-   model; until then the property is decided by the differential streams of tools/streams.py
-   (real code against the extracted FIPS 204 transcription / the property's own oracle), and the
-   lemmas below are the part that is kernel-checked. *)
-Require Import F204.Base.Util F204.Base.Mach F204.Gen.Params F204.Spec.SpecConv F204.Spec.SpecRound F204.Proofs.KernelLemmas.
+(* C01 - honest signatures always verify (all modes, sets, key provenances).
+
+   FULL STATEMENT, proved below for every hash family with the output-length laws, each parameter set,
+   EVERY key-generation seed, message, context (at most 255 bytes; longer ones make signing return
+   CtxTooLong), 32-byte rnd and mode (pure ML-DSA; HashML-DSA with SHA-256, SHA-512, SHAKE128; the
+   internal interface): whenever the model of signing returns Ok sig, the model of verification
+   returns Ok true on (pk, M, sig, ctx) - for the keys straight from key generation
+   (C01_sign_then_verify, C01_hash_sign_then_verify, C01_internal_sign_then_verify), and for every
+   other provenance the property names, because those keys ARE the generated structs
+   (C01_provenances: a serialise/deserialise round trip of either key returns the same struct, and the
+   public key derived from the private key is the generated one).
+   The proof is the ML-DSA correctness argument, carried out on the transcription of FIPS 204
+   (Proofs/SpecCorrect.v: NTT/invNTT are additive, A z - c t1 2^d = w - c s2 + c t0 in the NTT domain,
+   ||c s2|| <= beta for the negacyclic product with a weight-tau challenge, UseHint(MakeHint) lemma,
+   HighBits stability, canonical signature encoding), and transported to the model of the crate through
+   the refinement theorems of C02/C03/C04 (Proofs/Completeness.v).
+   Signing returning OutOfFuel (loop or squeeze budget of the model exhausted) is the only other outcome;
+   the budget hypothesis fuel * l < 65536 is the u16 kappa of the crate (see C03). *)
+Require Import List ZArith. Import ListNotations.
+Require Import F204.Base.Util F204.Base.Mach F204.Gen.Params F204.Gen.Oids F204.Hash.HashIface F204.Impl.Encodings F204.Impl.MlDsa F204.Impl.Api
+  F204.Spec.SpecConv F204.Spec.SpecRound F204.Proofs.KernelLemmas F204.Proofs.DeriveRefine F204.Proofs.Completeness.
 Open Scope Z_scope.
-(* ingredient (iii) of the completeness argument, FIPS 204 side: a hint bit set to 0 leaves the
-   high bits unchanged, a hint bit set to 1 always moves them (so UseHint can undo MakeHint) *)
-Theorem C01_usehint_zero_partial : forall g r, UseHint g 0 r = HighBits g r.
+
+Theorem C01_sign_then_verify : forall H, HashLaws H -> forall P, In P all_params -> forall fuel, Z.of_nat fuel * lz P < 65536 ->
+  forall xi pk sk rnd g M ctx sig g', keygen_from_seed H P xi = Ok (pk, sk) -> zlen rnd = 32 ->
+  try_sign_with_rng H fuel P sk (Fill rnd :: g) M ctx = (Ok sig, g') -> verify H P pk M sig ctx = Ok true.
+Proof. exact sign_then_verify. Qed.
+
+Theorem C01_hash_sign_then_verify : forall H, HashLaws H -> forall P, In P all_params -> forall fuel, Z.of_nat fuel * lz P < 65536 ->
+  forall xi pk sk rnd g M ctx ph sig g', keygen_from_seed H P xi = Ok (pk, sk) -> zlen rnd = 32 ->
+  try_hash_sign_with_rng H fuel P sk (Fill rnd :: g) M ctx ph = (Ok sig, g') -> hash_verify H P pk M sig ctx ph = Ok true.
+Proof. exact hash_sign_then_verify. Qed.
+
+Theorem C01_internal_sign_then_verify : forall H, HashLaws H -> forall P, In P all_params -> forall fuel, Z.of_nat fuel * lz P < 65536 ->
+  forall xi pk sk rnd M ctx sig, keygen_from_seed H P xi = Ok (pk, sk) -> zlen ctx <= 255 ->
+  internal_sign H fuel P sk M ctx rnd = Ok sig -> internal_verify H P pk M sig ctx = Ok true.
+Proof. exact internal_sign_then_verify. Qed.
+
+(* key provenances: round-tripped and derived keys are the generated structs themselves *)
+Theorem C01_provenances : forall H, HashLaws H -> forall P, In P all_params -> forall xi pk sk,
+  keygen_from_seed H P xi = Ok (pk, sk) ->
+  (forall pkb pk', pk_into_bytes P pk = Ok pkb -> pk_try_from_bytes H P pkb = Ok pk' -> pk' = pk) /\
+  (forall skb sk', sk_into_bytes P sk = Ok skb -> sk_try_from_bytes P skb = Ok sk' -> sk' = sk) /\
+  get_public_key H P sk = Ok pk.
+Proof.
+  intros H HL P HP xi pk sk E.
+  destruct (generated_roundtrip H HL P HP xi pk sk E) as (pkb0 & skb0 & _ & _ & _ & _ & E1 & E2 & E3 & E4).
+  split; [|split].
+  - intros pkb pk' Ei Et. rewrite E1 in Ei. injection Ei as <-. rewrite E2 in Et. injection Et as <-. reflexivity.
+  - intros skb sk' Ei Et. rewrite E3 in Ei. injection Ei as <-. rewrite E4 in Et. injection Et as <-. reflexivity.
+  - exact (derive_generated H HL P HP xi pk sk E).
+Qed.
+
+(* ingredient lemmas kept from the first round *)
+Theorem C01_usehint_zero : forall g r, UseHint g 0 r = HighBits g r.
 Proof. intros. unfold UseHint, HighBits. destruct (Decompose g r). reflexivity. Qed.
-Theorem C01_usehint_one_moves_partial : forall g r, g = 95232 \/ g = 261888 -> UseHint g 1 r <> UseHint g 0 r.
+Theorem C01_usehint_one_moves : forall g r, g = 95232 \/ g = 261888 -> UseHint g 1 r <> UseHint g 0 r.
 Proof. exact UseHint_flip. Qed.
-Print Assumptions C01_usehint_zero_partial.
-Print Assumptions C01_usehint_one_moves_partial.
+
+Print Assumptions C01_sign_then_verify.
+Print Assumptions C01_hash_sign_then_verify.
+Print Assumptions C01_internal_sign_then_verify.
+Print Assumptions C01_provenances.
+Print Assumptions C01_usehint_zero.
+Print Assumptions C01_usehint_one_moves.
